@@ -1158,6 +1158,24 @@ func ruleFilterCmdKeyKeep(w *core.World, r *core.Report) {
 			}
 		}
 		if loopHead == nil {
+			// the whole per-key loop sits in a helper with one call site (a phase of the function given a name):
+			// the loop is the one around the test in that helper
+			for _, s := range core.SitesNamed(f, false, "(*pkg/filter.RedisKeyFilter).FilterKey") {
+				var at ssa.Instruction = s.Instr
+				for i := 0; i < 8 && at.Parent() != f && loopHead == nil; i++ {
+					if h := core.LoopHeadOf(at.Block()); h != nil {
+						loopHead = h
+						break
+					}
+					c := core.ExpandedInto(at.Parent())
+					if c == nil {
+						break
+					}
+					at = c
+				}
+			}
+		}
+		if loopHead == nil {
 			// the test sits in a helper with several callers: the loop is the one that calls the helper
 			for _, s := range core.Sites(f, false) {
 				if s.Callee != nil && s.Instr.Parent() == f && len(core.SitesNamed(s.Callee, false, "(*pkg/filter.RedisKeyFilter).FilterKey")) > 0 {
@@ -1177,8 +1195,7 @@ func ruleFilterCmdKeyKeep(w *core.World, r *core.Report) {
 			if b, isB := core.ConstBool(st.Val); !isB || !b {
 				return false
 			}
-			ms, isMs := ia.X.(*ssa.MakeSlice)
-			return isMs && strings.HasSuffix(ms.Type().String(), "[]bool")
+			return boolMask(ia.X) // a []bool made locally, also when it is kept in a field of a private record (r7_n2.go)
 		}
 		n := 0
 		keepBad := ""
@@ -1316,6 +1333,12 @@ func ruleFilterCmdKeyKeep(w *core.World, r *core.Report) {
 			}
 		}
 		_ = why
+		if !okFlag && loopHead != nil {
+			// the flag as a field of a private record, possibly built by a helper that holds the loop (r7_n2.go)
+			if recordFlagRecordsRejection(f, loopHead, len(iters), func(k int) (bool, []ssa.Instruction) { return iters[k].rejected, iters[k].p.Instrs }) {
+				okFlag, seenFlag = true, true
+			}
+		}
 		r.Check(okFlag && seenFlag, "FilterCmdKey/filtered-flag", f.Pos(), "a rejected key must mark the command as filtered (otherwise the command is forwarded unchanged)")
 	}
 }
